@@ -174,3 +174,26 @@ ADDED5 = {
 for _pid, _extra in ADDED5.items():
     t, text, note, ref = CLAIMED[_pid]
     CLAIMED[_pid] = (t, text + _extra, note, ref)
+
+ADDED6 = {
+ "C01": " Round 6: looking a name up writes no scope (no store to a field or table of an Env reachable from Get/GetNT/Find/FindNT).",
+ "C03": " General: recover handlers are only deferred directly; format strings handed to the error constructors are constants. Round 6: an error that travels through a future is re-deposited on the channel it came from (shared with C10.redeposit / C10.single-outcome).",
+ "C04": " General: every deferred recover handler calls recover() in its own frame.",
+ "C06": " Round 6: every string read_atom returns is the delimiter-stripped token passed through the un-escape table (no second decoder); the equality the round trip is judged by is structural (C14's size, presence, kind and gate rules adopted as C06.equal-*).",
+ "C07": " General: no library mutex is held across a call that can reach the evaluator, a select, a channel operation or a sleep.",
+ "C08": " Round 6: the evaluation loop carries only form and scope to the next iteration; the context stays the one EVAL was given (a context derived per iteration grows a chain that Done/Err/Value descend recursively).",
+ "C09": " Round 6: no function of lib/concurrent acquires a mutex it already holds or calls, with the lock held, a function that locks the same object (RWMutex is not re-entrant for readers either).",
+ "C10": " Round 6: the status flags Done and Cancelled of a shared future are only ever assigned true; Deref answers only after a select case fired (never from a non-blocking look); an evaluation started in lib/concurrent runs under the context its function was given, not one captured from an enclosing activation.",
+ "C11": " General: inventory of package-level state written at run time. Round 6: the one-outcome rules of futures adopted for shared global futures (C11.future-*); no re-entrant acquisition of a scope lock.",
+ "C12": " Round 6: before the dispatch a form is handed back unevaluated only when known to be a list (a macro expanding to a vector, map or set is evaluated); defmacro evaluates its function operand itself and binds the name exactly once.",
+ "C13": " Round 6: the sequence accessor GetSlice succeeds for lists and vectors only, handing out their own element slice.",
+ "C14": " Round 6: the binder's adapters keep no state between calls (captured-state rule applied to the route = takes to Equal_Q).",
+ "C15": " Round 6: preamble lines may be accumulated in a strings.Builder (same shape); no second string decoder in read_atom (as C06).",
+ "C16": " Round 6: a collection reader answers only after its read_list call (the one place a closing token is matched with its opener); 'incomplete' messages are built nowhere else in the whole module.",
+ "C17": " Round 6: outside read_list a span is closed at a token fetched before any nested read (or at a sub-form's position); the text reaches the scanner unchanged (row numbers are the text's rows).",
+ "C18": " Round 6: may-panic audit of the stepper the module ships (debugger.(*Debugger).Stepper and its callees).",
+ "C20": " Round 6: the value-and-error result shape hands back the function's first result itself on every return; the error-only shape hands back nil.",
+}
+for _pid, _extra in ADDED6.items():
+    t, text, note, ref = CLAIMED[_pid]
+    CLAIMED[_pid] = (t, text + _extra, note, ref)
